@@ -1,26 +1,13 @@
-//! scratch probe (not a registered check)
-use vcore::diffexec;
+//! scratch probe (not a registered check): run the pipeline on files given as args (std added)
 fn main() {
+  vcore::pool::install_hook();
   let a: Vec<String> = std::env::args().collect();
-  let text = std::fs::read_to_string(&a[1]).unwrap();
-  let (p, entry) = diffexec::parse_rendered(&text);
-  let lim = diffexec::limits();
-  let mut o = diffexec::run_full(&p, &entry, &lim, true);
-  println!("c04 judgement: {:?}", diffexec::judge_c04(&o));
-  let js = o.js.clone().unwrap();
-  let patched = vcore::diffcheck::wrap_arithmetic(&js.replace("Math.floor(", "Math.trunc("));
-  for (a, b) in js.lines().zip(patched.lines()) { if a != b && a.contains("_t3838") { println!("{a}  =>  {b}"); } }
-  o.js = Some(patched);
-  o.ts_trace = None;
-  {
-    let mut refs: Vec<&mut diffexec::Outcome> = vec![&mut o];
-    diffexec::run_ts_batch(&mut refs, &lim, 3000);
-  }
-  println!("after patch: {:?}", diffexec::judge_c04(&o));
-  let (w, t) = (o.wasm_trace.unwrap(), o.ts_trace.unwrap());
-  for i in 0..w.lines.len().max(t.lines.len()) {
-    if w.lines.get(i) != t.lines.get(i) {
-      println!("{i}: {:?} vs {:?}", w.lines.get(i), t.lines.get(i));
-    }
+  let corpus = vcore::corpus::Corpus::load();
+  for f in &a[1..] {
+    let text = std::fs::read_to_string(f).unwrap();
+    let mut mods = vec![("Main".to_string(), text)];
+    mods.extend(corpus.std.iter().cloned());
+    let r = vcore::pipeline::run(&mods, true, true);
+    println!("{f}: syn={} oth={} kinds={:?} compiled={:?} panic={:?} silent={:?}", r.syntax_errors, r.other_errors, r.diag_kinds, r.compiled, r.panic, r.silent_recovery);
   }
 }
